@@ -427,7 +427,7 @@ def gen_cfg_reg_value(rng, r):
 def run(ck):
     from spsdk.utils.registers import Registers  # noqa: F401
 
-    ck.lean_obligations(generated=["RegArith"])   # integer arithmetic of registers.py, re-translated from the AST on every run
+    ck.lean_obligations(generated=["RegArith", "RegProc"])   # integer arithmetic of registers.py, re-translated from the AST on every run
     drv = ck.driver()
     rng = ck.rng
     ck.assume("config processors other than SHIFT_RIGHT, YAML comment rendering and HTML export are not modelled",
@@ -670,6 +670,7 @@ def run(ck):
                           "a negative value is not refused (or the refused write changed the register)", (res, dump_real_cfg(regs, layout)), "E:spsdk")
 
     run_config_model(ck, drv)
+    run_phase3(ck, drv)
 
 
 def quiet(fn, *a, **kw):
@@ -887,6 +888,362 @@ def run_config_model(ck, drv):
                 if rs.startswith("E:") and " " not in rs:
                     ms = ms.split(" ")[0]      # a failed load leaves the real object half-written; only the error class is compared
                 if not sc.compare((layout, little, ops, wh), rs, ms, "configuration path / alternative widths: implementation and model differ"):
+                    break
+
+
+# ------------------------------------------------------------------------------------------------ phase 3
+def _initial_and_api_reset(r):
+    """(value a freshly created register holds, what get_reset_value() reports) computed from the layout alone"""
+    if r["kind"] == "group":
+        val = 0
+        for k, sv in enumerate(r["sub_resets"]):
+            val |= sv << ((r["width"] - (k + 1) * r["sub_w"]) if r["rev_subs"] else k * r["sub_w"])
+        return val, 0
+    cur, api = r["reset"], r["reset"]
+    for f in r["fields"]:
+        m = (1 << f["width"]) - 1
+        if f["reset"]:
+            st = f["reset"] >> f["shift"]
+            if st <= m:
+                cur = (cur & ~(m << f["offset"])) | (st << f["offset"])
+            api_f = f["reset"]
+        else:
+            api_f = ((cur >> f["offset"]) & m) << f["shift"]
+        api |= (api_f & m) << f["offset"]
+    return cur, api
+
+
+def run_phase3(ck, drv):
+    """streams `diff_config`, `processor_spec`, `lookup`, `sparse_export` (Model/RegistersP3.lean)"""
+    import copy as _copy
+    rng = ck.rng
+    # ------------------------------------------------------------------ get_config(diff=True)
+    n_layouts = ck.budget(500, 8000)
+    sd = ck.stream("diff_config", f"{n_layouts} layouts of the configuration stream x random state (bit-field / sub-register / register writes, writes of the reset value, "
+                   "reset of a register; state compared after each) -> get_config(diff=True) compared with the model; oracle on the real object: a register is named iff its raw "
+                   "value differs from get_reset_value(), a bit-field iff it does not read its reset value; load_yml_config(diff config) into a fresh object reproduces every "
+                   "bit-field / register value (result + complete state also compared with the model); non-trivial = distinct (layout, state)")
+    for li in range(n_layouts):
+        layout = gen_layout_cfg(rng)
+        little = rng.random() < 0.5
+        try:
+            regs = build_real_cfg(layout, little)
+        except Exception as exc:  # noqa: BLE001
+            sd.expect(False, layout, f"generated layout does not load: {type(exc).__name__}: {exc}")
+            continue
+        lines = model_lines_cfg(layout, little)
+        n_setup = len(lines)
+        real, what, ops = ["ok " + dump_real_cfg(regs, layout)], ["state after load"], []
+        for _ in range(rng.choice([0, 1, 2, 3, 5, 7])):
+            ri = rng.randrange(len(layout))
+            r = layout[ri]
+            reg = regs.find_reg(f"REG{ri}")
+            c = rng.random()
+            if r["kind"] == "plain" and r["fields"] and c < 0.6:
+                fi = rng.randrange(len(r["fields"]))
+                f = r["fields"][fi]
+                bf = reg.find_bitfield(fname(ri, fi, f))
+                v = pyres(bf.get_reset_value)[1] if rng.random() < 0.3 else gen_value(rng, f["width"]) << f["shift"]
+                raw = rng.random() < 0.5
+                res = pyres(bf.set_value, v, raw)
+                lines.append(f"set_field {ri} {fi} {v} {int(raw)}")
+                ops.append(("set_field", ri, fi, v, raw))
+            elif r["kind"] == "group" and c < 0.3:
+                k = rng.randrange(r["n"])
+                v = rng.choice([0, gen_value(rng, r["sub_w"])])
+                res = pyres(regs.find_reg(f"REG{ri}_S{k}", include_group_regs=True).set_value, v)
+                lines.append(f"set_sub {ri} {k} {v}")
+                ops.append(("set_sub", ri, k, v))
+            elif c < 0.45 and not (r["kind"] == "group" and r["alts"]):
+                res = pyres(reg.reset_value, True)
+                lines.append(f"reset {ri}")
+                ops.append(("reset", ri))
+            else:
+                v = rng.choice([0, gen_cfg_reg_value(rng, r)])
+                raw = rng.random() < 0.5
+                res = pyres(reg.set_value, v, raw)
+                lines.append(f"set_alt {ri} {v} {int(raw)}")
+                ops.append(("set_reg", ri, v, raw))
+            real.append(res[0] + " " + dump_real_cfg(regs, layout))
+            what.append(f"state after op {ops[-1]}")
+        st_x = dump_real_cfg(regs, layout)
+        gd = pyres(regs.get_config, True)
+        sd.note((layout, ops), cls=f"regs={len(layout)}")
+        sd.expect(gd[0] == "ok", (layout, ops), "get_config(diff=True) raised", gd)
+        if gd[0] != "ok":
+            continue
+        cfg = gd[1]
+        sd.expect(dump_real_cfg(regs, layout) == st_x, (layout, ops), "get_config(diff=True) changed the object")
+        lines.append("get_config_diff")
+        real.append("ok:" + enc_cfg(canon_cfg(cfg, layout), sort=True))
+        what.append("get_config(diff=True)")
+        # exactly what differs from reset
+        for ri, r in enumerate(layout):
+            reg, name = regs.find_reg(f"REG{ri}"), f"REG{ri}"
+            at_reset = pyres(reg.get_value, True) == ("ok", reg.get_reset_value())
+            sd.expect((name in cfg) == (not at_reset), (layout, ops, name), "diff configuration: a register is named although it holds its reset value (or left out although it does not)",
+                      name in cfg, not at_reset)
+            if name in cfg and r["kind"] == "plain" and r["fields"]:
+                exp_keys = {fname(ri, fi, f) for fi, f in enumerate(r["fields"])
+                            if pyres(reg.find_bitfield(fname(ri, fi, f)).get_value) != ("ok", reg.find_bitfield(fname(ri, fi, f)).get_reset_value())}
+                got_keys = set(cfg[name].keys()) if isinstance(cfg[name], dict) else None
+                sd.expect(got_keys == exp_keys, (layout, ops, name), "diff configuration: the bit-fields named are not exactly those that differ from their reset value",
+                          sorted(got_keys or []), sorted(exp_keys))
+        # load into a fresh object
+        fresh = build_real_cfg(layout, little)
+        fresh_upper = {ri: [pyres(fresh.find_reg(f"REG{ri}_S{k}", include_group_regs=True).get_value)[1] for k in range(r["n"])]
+                       for ri, r in enumerate(layout) if r["kind"] == "group"}
+        raw_x = [pyres(regs.find_reg(f"REG{ri}").get_value, True) for ri in range(len(layout))]
+        enc = enc_cfg(canon_cfg(cfg, layout))
+        st_fresh = dump_real_cfg(fresh, layout)
+        lr = pyres(quiet, fresh.load_yml_config, _copy.deepcopy(cfg))
+        lines += ["restore", f"load_config {enc}"]
+        real += ["ok " + st_fresh, (lr[0] + " " + dump_real_cfg(fresh, layout)) if lr[0] == "ok" else lr[0]]
+        what += ["fresh object", "load_yml_config(get_config(diff=True)) into a fresh object"]
+        sd.expect(lr[0] == "ok", (layout, ops, cfg), "a diff configuration obtained from the object does not load", lr)
+        if lr[0] == "ok":
+            for ri, r in enumerate(layout):
+                a, b = regs.find_reg(f"REG{ri}"), fresh.find_reg(f"REG{ri}")
+                ini, api = _initial_and_api_reset(r)
+                finding = "C11-reset-value-differs-from-initial-value" if ini != api else None
+                if r["kind"] == "plain" and r["fields"]:
+                    if r["flip"]:
+                        continue
+                    for fi, f in enumerate(r["fields"]):
+                        va, vb = pyres(a.find_bitfield(fname(ri, fi, f)).get_value), pyres(b.find_bitfield(fname(ri, fi, f)).get_value)
+                        sd.expect(va == vb, (layout, ops, "diff", ri, fi, cfg), "a diff configuration loaded into a fresh object does not reproduce a bit-field value", vb, va, finding=finding)
+                else:
+                    va, vb = pyres(a.get_value, True), pyres(b.get_value, True)
+                    if r["kind"] == "group" and r["alts"] and raw_x[ri][0] == "ok" and finding is None:
+                        aw = alt_width(r["alts"], r["width"], raw_x[ri][1])
+                        if any(x != 0 for x in fresh_upper[ri][aw // r["sub_w"]:]):
+                            finding = "C11-alt-width-stale-sub-registers"
+                        elif r["reverse"] and alt_unstable(r["alts"], r["width"], raw_x[ri][1]):
+                            finding = "C11-alt-width-reversed-trailing-zero-bytes"
+                    sd.expect(va == vb, (layout, ops, "diff", ri, cfg), "a diff configuration loaded into a fresh object does not reproduce a register value", vb, va, finding=finding)
+        if drv is not None:
+            ans = drv.batch(lines)
+            model = ans[n_setup - 1:]
+            for rs, ms, wh in zip(real, model, what):
+                if rs.startswith("E:") and " " not in rs:
+                    ms = ms.split(" ")[0]
+                if not sd.compare((layout, little, ops, wh), rs, ms, "get_config(diff=True) / loading it: implementation and model differ"):
+                    break
+
+    # ------------------------------------------------------------------ ConfigProcessor.from_spec
+    from spsdk.utils.registers import ConfigProcessor
+    sp = ck.stream("processor_spec", "configuration strings `<NAME>:<KEY>=<int>,...;DESC=<text>` (valid SHIFT_RIGHT strings with decimal / hex / padded counts, lower-case and "
+                   "repeated keys, extra keys, missing COUNT, malformed pairs, unknown and empty names) -> ConfigProcessor.from_spec compared with the model's procFromSpec over the "
+                   "GENERATED processor table; oracle: a valid SHIFT_RIGHT string yields pre = >> count, post = << count, width + count, pre(post(v)) = v, and post(pre(v)) = v on "
+                   "multiples of 2^count; an unknown NAME yields no processor; non-trivial = distinct string")
+
+    def rnd_int_text(n):
+        return rng.choice([str(n), hex(n), f" {n} ", f"0x{n:04X}", f"{n}u", f"0b{n:b}"])
+
+    for _ in range(ck.budget(600, 6000)):
+        n = rng.choice([0, 1, 4, 8, 31, rng.randrange(64)])
+        k = rng.random()
+        valid = False
+        if k < 0.35:
+            spec = f"SHIFT_RIGHT:COUNT={n}" + rng.choice(["", ";DESC=text", ";DESC=a:b,c=d;e", ";"])
+            valid = True
+        elif k < 0.5:
+            spec = f"SHIFT_RIGHT:{rng.choice(['count', 'Count', 'COUNT'])}={rnd_int_text(n)}" + rng.choice(["", ";DESC=x"])
+        elif k < 0.62:
+            m = rng.randrange(64)
+            spec = "SHIFT_RIGHT:" + ",".join(rng.sample([f"COUNT={n}", f"count={m}", f"FOO={m}", f"COUNT={m}", f"Count={n}"], rng.choice([2, 3])))
+        elif k < 0.8:
+            spec = rng.choice(["SHIFT_RIGHT", "SHIFT_RIGHT:", "SHIFT_RIGHT:COUNT", "SHIFT_RIGHT:COUNT=", f"SHIFT_RIGHT:COUNT={n}=1", "SHIFT_RIGHT:COUNT=x", f"SHIFT_RIGHT:FOO={n}",
+                               f"SHIFT_RIGHT:COUNT={n},", f"SHIFT_RIGHT:COUNT={n}:X=1", f"SHIFT_RIGHT;COUNT={n}", f"SHIFT_RIGHT:COUNT=-{n}", f"SHIFT_RIGHT:COUNT={n};COUNT=1",
+                               f"SHIFT_RIGHT:,COUNT={n}", f"SHIFT_RIGHT:COUNT = {n}"])
+        else:
+            spec = rng.choice(["", "NOP", f"NOP:COUNT={n}", f"SHIFT_LEFT:COUNT={n}", f"shift_right:COUNT={n}", f" SHIFT_RIGHT:COUNT={n}", f"SHIFT_RIGHT :COUNT={n}", ":", ";", "=",
+                               f"X:COUNT={n}=2"])
+        res = pyres(ConfigProcessor.from_spec, spec)
+        if res[0] == "ok":
+            p = res[1]
+            canon_r = "ok:none" if p is None else f"ok:{p.NAME}:{getattr(p, 'count', '')}"
+        else:
+            canon_r = res[0]
+        sp.note(spec, cls="valid" if valid else canon_r.split(":")[0] + (":none" if canon_r == "ok:none" else ""))
+        if valid:
+            ok = res[0] == "ok" and res[1] is not None and type(res[1]).NAME == "SHIFT_RIGHT"
+            sp.expect(ok, spec, "a valid SHIFT_RIGHT configuration string does not yield the SHIFT_RIGHT processor", canon_r)
+            if ok:
+                p = res[1]
+                for v in (0, 1, rng.getrandbits(40), (rng.getrandbits(20) << n)):
+                    sp.expect(p.pre_process(v) == v >> n and p.post_process(v) == v << n and p.width_update(v) == v + n and p.pre_process(p.post_process(v)) == v,
+                              (spec, v), "SHIFT_RIGHT processor: pre / post / width arithmetic is not >> count / << count / + count", (p.pre_process(v), p.post_process(v), p.width_update(v)))
+                    if v % (1 << n) == 0:
+                        sp.expect(p.post_process(p.pre_process(v)) == v, (spec, v), "post(pre(v)) != v on the accepted domain", p.post_process(p.pre_process(v)), v)
+        if spec.split(":")[0] not in ("SHIFT_RIGHT",):
+            sp.expect(canon_r == "ok:none", spec, "an unknown processor name does not yield 'no processor'", canon_r, "ok:none")
+        if drv is not None:
+            sp.compare(spec, canon_r, drv.batch(["proc_spec " + (spec.encode().hex() or "-")])[0], "ConfigProcessor.from_spec: implementation and model differ")
+
+    # ------------------------------------------------------------------ look-up by name / alias / uid
+    sl = ck.stream("lookup", "layouts of the configuration stream with alias names and uids that collide with other names -> find_reg(x, include_group_regs) / get_reg(uid) / "
+                   "find_bitfield(x) for every name, alias, uid, member name, member uid and unknown strings, compared with the model (identity of the object found); oracle: the "
+                   "object found carries the string as name, alias or uid, a top-level name is always found, members only with include_group_regs, unknown -> SPSDK error, the "
+                   "look-up leaves the object unchanged; non-trivial = distinct (layout, query)")
+    for li in range(ck.budget(250, 3000)):
+        layout = gen_layout_cfg(rng)
+        try:
+            regs = build_real_cfg(layout, False)
+        except Exception as exc:  # noqa: BLE001
+            sl.expect(False, layout, f"generated layout does not load: {type(exc).__name__}: {exc}")
+            continue
+        ids = {"": 0}
+
+        def nid(x):
+            return ids.setdefault(x, len(ids))
+        top = [regs.find_reg(f"REG{ri}") for ri in range(len(layout))]
+        for ri, reg in enumerate(top):
+            for _ in range(rng.choice([0, 0, 1, 2])):
+                reg.add_alias(rng.choice([f"AL{rng.randrange(4)}", f"REG{rng.randrange(len(layout))}", f"r{rng.randrange(len(layout))}"]))
+            if layout[ri]["kind"] == "plain" and rng.random() < 0.2:
+                reg.uid = rng.choice([f"REG{rng.randrange(len(layout))}", f"AL{rng.randrange(4)}", reg.uid])
+        objs, table = {}, []
+        for ri, reg in enumerate(top):
+            objs[id(reg)] = f"t{ri}"
+            subs = []
+            for k, sr in enumerate(reg.sub_regs):
+                objs[id(sr)] = f"s{ri}.{k}"
+                subs.append(f"{nid(sr.name)}.{nid(sr.uid)}")
+            table.append(f"{nid(reg.name)}/{nid(reg.uid)}/{','.join(str(nid(a)) for a in reg._alias_names) or '-'}/{'+'.join(subs) or '-'}")
+        queries = set(ids) - {""} | {"NOPE", "REG9", "r0s9"}
+        lines, real, qs = ["names " + ";".join(table)], [None], [None]
+        def dump_top():
+            return [(pyres(t.get_value, True), [pyres(b.get_value) for b in t._bitfields], [pyres(x.get_value, True) for x in t.sub_regs], list(t._alias_names)) for t in top]
+        st0 = dump_top()
+        n0 = len(regs.get_registers())
+        for q in sorted(queries):
+            for incl in (False, True):
+                res = pyres(regs.find_reg, q, incl)
+                sl.note((li, q, incl), cls="found" if res[0] == "ok" else res[0])
+                if res[0] == "ok":
+                    o = res[1]
+                    sl.expect(q == o.name or q in o._alias_names or q == o.uid, (layout, q, incl), "find_reg returned a register that does not carry the string", o.name)
+                    sl.expect(incl or id(o) in {id(t) for t in top}, (layout, q, incl), "find_reg returned a group member without include_group_regs", o.name)
+                else:
+                    sl.expect(res[0] == "E:spsdk", (layout, q, incl), "find_reg raised a non-SPSDK exception", res)
+                    sl.expect(not any(q == t.name or q in t._alias_names or q == t.uid for t in top), (layout, q, incl), "find_reg does not find an existing top-level register", res)
+                lines.append(f"find {nid(q)} {int(incl)}")
+                real.append("ok:" + (objs.get(id(res[1]), "?") if res[0] == "ok" else "none"))
+                qs.append((q, incl))
+            res = pyres(regs.get_reg, q)
+            lines.append(f"get_uid {nid(q)}")
+            real.append("ok:" + (objs.get(id(res[1]), "?") if res[0] == "ok" else "none"))
+            qs.append((q, "uid"))
+            if res[0] == "ok":
+                sl.expect(res[1].uid == q, (layout, q), "get_reg returned a register with another uid", res[1].uid)
+        sl.expect(dump_top() == st0 and len(regs.get_registers()) == n0 and [id(x) for x in regs._registers] == [id(t) for t in top], layout, "a look-up changed the object")
+        for ri, r in enumerate(layout):
+            if r["kind"] != "plain" or not r["fields"]:
+                continue
+            reg = top[ri]
+            bfs = reg._bitfields
+            if rng.random() < 0.3 and len(bfs) > 1:
+                bfs[-1].uid = bfs[0].name          # a uid that collides with an earlier name
+            enc = ",".join(f"{nid(b.name)}.{nid(b.uid)}" for b in bfs)
+            for q in sorted({b.name for b in bfs} | {b.uid for b in bfs if b.uid} | {"NO_FIELD"}):
+                res = pyres(reg.find_bitfield, q)
+                sl.note((li, ri, q), cls="bitfield:" + ("found" if res[0] == "ok" else res[0]))
+                if res[0] == "ok":
+                    sl.expect(res[1].name == q or res[1].uid == q, (layout, ri, q), "find_bitfield returned a bit-field that does not carry the string", res[1].name)
+                else:
+                    sl.expect(res[0] == "E:spsdk" and not any(b.name == q or b.uid == q for b in bfs), (layout, ri, q), "find_bitfield does not find an existing bit-field", res)
+                lines.append(f"find_bf {enc} {nid(q)}")
+                real.append("ok:" + (str([id(b) for b in bfs].index(id(res[1]))) if res[0] == "ok" else "none"))
+                qs.append((ri, q))
+        if drv is not None:
+            ans = drv.batch(lines)
+            for rs, ms, q in zip(real, ans, qs):
+                if rs is None:
+                    continue
+                if not sl.compare((layout, table, q), rs, ms, "look-up by name / alias / uid: implementation and model differ"):
+                    break
+
+    # ------------------------------------------------------------------ export / parse with gaps
+    from spsdk.utils.misc import BinaryPattern, Endianness
+    from spsdk.utils.registers import Registers
+    import logging
+    sx = ck.stream("sparse_export", "1-6 registers of 8..128 bits at random non-overlapping byte offsets (gaps, unsorted order, first offset not 0), both base endiannesses, zeros / ones "
+                   "fill pattern -> len(image_info()), export() and parse() of binaries that are longer / exact / shorter, compared with the model; oracle: the image is as long as the "
+                   "furthest register end, every register's bytes sit at its offset in base endianness, every other byte is the pattern byte, parse(export()) into a fresh object "
+                   "restores every value; non-trivial = distinct (layout, values)")
+    for li in range(ck.budget(300, 4000)):
+        little = rng.random() < 0.5
+        n = rng.choice([1, 2, 3, 4, 6])
+        pos, placed = rng.choice([0, 0, 1, 4, 16]), []
+        for ri in range(n):
+            w = rng.choice([8, 16, 32, 32, 64, 128])
+            placed.append((pos, w))
+            pos += w // 8 + rng.choice([0, 0, 1, 3, 4, 12])
+        order = list(range(n))
+        if rng.random() < 0.5:
+            rng.shuffle(order)
+        spec_regs = [{"id": f"x{ri}", "name": f"X{ri}", "offset_int": hex(placed[ri][0]), "reg_width": placed[ri][1]} for ri in order]
+
+        def build():
+            logging.disable(logging.CRITICAL)
+            try:
+                o = Registers(family="verif_dummy", feature="verif", base_endianness=Endianness.LITTLE if little else Endianness.BIG)
+                o._load_from_spec({"groups": [{"group": {"name": "g"}, "registers": spec_regs}]}, [])
+            finally:
+                logging.disable(logging.NOTSET)
+            return o
+        try:
+            regs = build()
+        except Exception as exc:  # noqa: BLE001
+            sx.expect(False, spec_regs, f"generated layout does not load: {type(exc).__name__}: {exc}")
+            continue
+        vals = {}
+        lines = [f"new {int(little)}"]
+        for ri in order:
+            lines.append(f"reg {placed[ri][1]} 0 0 0 0 0")
+        lines.append("offs " + ",".join(str(placed[ri][0]) for ri in order))
+        for k, ri in enumerate(order):
+            v = rng.choice([0, (1 << placed[ri][1]) - 1, rng.getrandbits(placed[ri][1])])
+            vals[ri] = v
+            regs.find_reg(f"X{ri}").set_value(v, raw=True)
+            lines.append(f"set_reg {k} {v} 1")
+        n_setup = len(lines)
+        ones = rng.random() < 0.3
+        end = max(o + w // 8 for o, w in placed)
+        ln = pyres(lambda: len(regs.image_info()))
+        ex = pyres(regs.export, 0, BinaryPattern("ones")) if ones else pyres(regs.export)
+        sx.note((little, spec_regs, sorted(vals.items())), cls=f"regs={n}" + (",ones" if ones else ""))
+        sx.expect(ln == ("ok", end), (little, spec_regs), "image length is not the furthest register end", ln, end)
+        okx = ex[0] == "ok" and len(ex[1]) == end
+        sx.expect(okx, (little, spec_regs), "export() failed or has the wrong length", ex if ex[0] != "ok" else len(ex[1]), end)
+        real = [f"ok:{ln[1]}" if ln[0] == "ok" else ln[0], ("ok:" + ex[1].hex()) if ex[0] == "ok" else ex[0]]
+        lines += ["image_len", f"export_at {255 if ones else 0}"]
+        if okx:
+            exp = bytearray([0xFF if ones else 0]) * end
+            for ri, (o, w) in enumerate(placed):
+                exp[o:o + w // 8] = vals[ri].to_bytes(w // 8, "little" if little else "big")
+            sx.expect(bytes(ex[1]) == bytes(exp), (little, spec_regs, sorted(vals.items())), "export(): a register's bytes are not at its offset / a gap byte is not the pattern", ex[1].hex(), bytes(exp).hex())
+            fresh = build()
+            pr = pyres(fresh.parse, bytes(ex[1]))
+            back = {ri: pyres(fresh.find_reg(f"X{ri}").get_value, True) for ri in range(n)}
+            sx.expect(pr[0] == "ok" and all(back[ri] == ("ok", vals[ri]) for ri in range(n)), (little, spec_regs, sorted(vals.items())), "parse(export()) into a fresh object does not restore every value", back)
+        for _ in range(2):
+            blen = rng.choice([end, end + rng.randrange(1, 9), rng.randrange(0, end + 1)])
+            data = bytes(rng.getrandbits(8) for _ in range(blen))
+            tgt = build()
+            pr = pyres(tgt.parse, data)
+            state = " ".join(f"{tgt.find_reg(f'X{ri}').get_value(True)}/{tgt.find_reg(f'X{ri}').get_value(False)}[]" for ri in order)
+            lines += ["reset_all", f"parse_at {data.hex() or '-'}"]
+            real += [None, (pr[0] + " " + state) if pr[0] == "ok" else pr[0]]
+        if drv is not None:
+            ans = drv.batch(lines)[n_setup:]
+            for rs, ms in zip(real, ans):
+                if rs is None:
+                    continue
+                if rs.startswith("E:") and " " not in rs:
+                    ms = ms.split(" ")[0]
+                if not sx.compare((little, spec_regs, sorted(vals.items())), rs, ms, "export / parse with gaps: implementation and model differ"):
                     break
 
 
